@@ -7,6 +7,10 @@ ROOT = os.path.dirname(os.path.dirname(os.path.abspath(__file__)))
 
 # id -> (technique, level text, level note, design ref)
 CHECKS = {
+ "C18": ("stress exploration with generated configurations (threads x engines x addends x iteration counts) and an invariant oracle over the final memory state",
+         "Up to 16 threads on a mix of interpreter, JIT and Cranelift hammer one naturally aligned word behind a start barrier, 16 such processes at a time; the final value must equal initial + sum(K*addend) mod 2^width and no neighbouring byte may change; misaligned interpreter adds must be refused without touching memory. Real schedules only - this family of technique cannot enumerate interleavings; a non-atomic read-modify-write is nevertheless caught within the first configurations (validated by mutation). Exploration, weakest claim of the set.",
+         "Overlap of executions is made likely (barrier, K >= 10,000, oversubscription), not guaranteed; replay re-runs a configuration five times because schedules are not reproducible.",
+         "DESIGN.md section 3, C18"),
  "C09": ("proptest over (VM kind, offset pairs, packet sequences, engine schedules) against an address oracle, one VM object driven through all three engines in a forked child",
          "Probe programs expose r1, r10, stack usability, packet addressing and - for the fixed-metadata VM - the two stored pointers; the harness knows the real packet addresses and checks every execution of a generated schedule on interpreter, JIT and Cranelift. Exploration.",
          "Empty-packet start pointer is not compared (only end - start == 0).",
